@@ -6,10 +6,10 @@
    lock-free teardown, the close notification through the Async FIFO); its teardown does not close a descriptor but
    removes the session's address from the listener's map (udpConn.Close: delete(parent.connUDP.conns, key)) - the model
    re-uses the close(2) counter [fdcl] of the embedded connection state as the "released" marker.
-   Modelled as ONE step: "entered into the map, idle timer armed (Config.UDPReadTimeout), open notification".  The code arms the
-   timer BEFORE it runs the open handler (readUDP: getConn; SetReadDeadline; onOpen); with an absurdly small UDPReadTimeout
-   (1 ns) the timer's close notification can overtake the open notification (seen once in 1000 sessions by a probe); for any
-   realistic timeout the poller would have to stall for the whole timeout between two adjacent statements.
+   Creation is ONE step: "entered into the map, open notification, idle timer armed (Config.UDPReadTimeout)" - the order of
+   readUDP since /repo 6bda07e (getConn; onOpen; SetReadDeadline): the timer's close is a later action of the session.  Before
+   that commit the timer was armed BEFORE the open handler ran and, with a tiny UDPReadTimeout, its close notification could
+   overtake the open notification (finding D38; the harness's udp-idle-stress scenario guards it).
    NO proofs in this file (it is extracted). *)
 Require Import Lifecycle.
 From Coq Require Import List Bool Arith.
